@@ -62,9 +62,16 @@ class HistPlugin(BasePlugin):
 
     def shrink(self, case):
         ops = case['ops']
+        # the leading clock operation stays: without it the model's initial clock (0) and the
+        # harness's (T0) differ, and a shrunk history would fail for that unrelated reason
+        keep0 = bool(ops) and ops[0].get('op') == 'clock'
         for i in range(len(ops)):
+            if i == 0 and keep0:
+                continue
             yield dict(case, ops=ops[:i] + ops[i + 1:])
         for i, op in enumerate(ops):
+            if i == 0 and keep0:
+                continue
             for w in shrink_value(op):
                 if isinstance(w, dict) and set(w) == set(op) and w.get('op') == op['op'] \
                         and well_formed(w):
